@@ -24,8 +24,8 @@ PLAN = {
     'C04': {'quick': CORE + [('MC_core.tla', 'MC_live.cfg')], 'thorough': [('MC_core.tla', 'MC_core_big.cfg'), ('MC_core.tla', 'MC_live2.cfg')]},
     'C05': {'quick': CORE, 'thorough': [('MC_core.tla', 'MC_core_big.cfg'), ('MC_par.tla', 'MC_par.cfg')]},
     'C06': {'quick': CORE, 'thorough': [('MC_core.tla', 'MC_core_big.cfg'), ('MC_par.tla', 'MC_par.cfg'), ('MC_partime.tla', 'MC_partime.cfg')]},
-    'C07': {'quick': [('MC_fwd.tla', 'MC_fwd.cfg')], 'thorough': [('MC_fwd.tla', 'MC_fwd.cfg'), ('MC_fwd.tla', 'MC_fwd2.cfg'), ('MC_fwd.tla', 'MC_live_fwd.cfg')]},
-    'C08': {'quick': [('MC_fwd.tla', 'MC_fwd.cfg')], 'thorough': [('MC_fwd.tla', 'MC_fwd.cfg'), ('MC_fwd.tla', 'MC_fwd2.cfg')]},
+    'C07': {'quick': [('MC_fwd.tla', 'MC_fwd.cfg')], 'thorough': [('MC_fwd.tla', 'MC_fwd.cfg'), ('MC_fwd.tla', 'MC_live_fwd.cfg')]},
+    'C08': {'quick': [('MC_fwd.tla', 'MC_fwd.cfg')], 'thorough': [('MC_fwd.tla', 'MC_fwd.cfg')]},
     'C09': {'quick': CORE, 'thorough': [('MC_core.tla', 'MC_core_big.cfg'), ('MC_fwd.tla', 'MC_fwd.cfg'), ('MC_par.tla', 'MC_par.cfg')]},
     'C10': {'quick': [('MC_core.tla', 'MC_time.cfg'), ('MC_partime.tla', 'MC_partime_s.cfg'), ('MC_core.tla', 'MC_live_time.cfg')],
             'thorough': [('MC_core.tla', 'MC_time.cfg'), ('MC_core.tla', 'MC_time_big.cfg'), ('MC_partime.tla', 'MC_partime_s.cfg'), ('MC_partime.tla', 'MC_partime.cfg'),
